@@ -28,6 +28,39 @@ func (ex *Exec) execCall(fr *Frame, st *State, c *ssa.CallCommon, pos token.Pos,
 			args = append(args, ex.val(fr, a))
 		}
 		name := fmt.Sprintf("(%s).%s", types.TypeString(c.Value.Type(), qual), c.Method.Name())
+		// `impl <interface> <concrete>`: the contract fixes the dynamic type (it must follow from
+		// the precondition: that is an obligation) and the call is dispatched statically.
+		if ex.contract != nil {
+			if nt, ok := c.Value.Type().(*types.Named); ok {
+				if conc, ok := ex.contract.Impl[nt.Obj().Name()]; ok {
+					if iv, ok := recv.(IfV); ok {
+						env := &SpecEnv{ex: ex, st: st, vars: map[string]Value{}, ctx: True}
+						if ex.fn.Pkg != nil {
+							env.pkg = ex.fn.Pkg.Pkg
+						}
+						ct := env.resolveTypeName(conc)
+						if ct == nil {
+							unsup("impl: unknown type %s", conc)
+						}
+						ex.check("impl", nt.Obj().Name()+"="+conc, pos, st, Eq(iv.Tag, ex.P.typeTag(ct)))
+						var rv Value
+						if pt, isP := ct.Underlying().(*types.Pointer); isP {
+							rv = PtrV{Loc{Kind: LHeap, Root: pt.Elem(), Ref: iv.Ref, Ty: pt.Elem()}, ct}
+						} else {
+							unsup("impl: concrete type must be a pointer type")
+						}
+						ms := ex.P.prog.MethodSets.MethodSet(ct)
+						for i := 0; i < ms.Len(); i++ {
+							if ms.At(i).Obj().Name() == c.Method.Name() {
+								fn := ex.P.prog.MethodValue(ms.At(i))
+								return ex.callFunction(fr, st, fn, nil, append([]Value{rv}, args...), pos, rt)
+							}
+						}
+						unsup("impl: %s has no method %s", conc, c.Method.Name())
+					}
+				}
+			}
+		}
 		if ct := ex.P.contractByName(name); ct != nil {
 			iv, _ := recv.(IfV)
 			ex.check("nil", "invoke", pos, st, Neq(iv.Tag, BVi(0, 32)))
